@@ -76,9 +76,11 @@ Finish(q) == /\ p' = q
              /\ stage' = "done"
 
 AssembleOhp ==
-  \E cons \in BOOLEAN, eg \in EgSideDom, v \in BOOLEAN :
+  \* the first hop field's ConsIngress (0 in a well-formed one-hop path) is not read by the router, but it is
+  \* covered by the MAC: both values are concretised
+  \E cons \in BOOLEAN, in \in {0, JunkIf}, eg \in EgSideDom, v \in BOOLEAN :
     Finish([p EXCEPT !.infos = <<[cons |-> cons, peer |-> FALSE]>>,
-                     !.hops = <<[JunkHop EXCEPT !.in = 0, !.eg = eg, !.vp = v], [JunkHop EXCEPT !.in = 0, !.eg = 0]>>])
+                     !.hops = <<[JunkHop EXCEPT !.in = in, !.eg = eg, !.vp = v], [JunkHop EXCEPT !.in = 0, !.eg = 0]>>])
 
 AssembleFields(PD) ==
   \E cons \in BOOLEAN, peer \in PD, iside \in InSideDom, eside \in EgSideDom, exp \in ExpDom, au \in AuthDom, al \in AlertDom :
